@@ -47,8 +47,12 @@ func ctlFaults(c *ctx, file func() string) error {
 		// find the number of gate positions with a dry run
 		positions := 0
 		for pos := -1; pos < 40; pos++ {
-			for _, mode := range []string{"crash", "fail"} {
+			for _, variant := range []string{"crash", "fail", "fail/unconfirmed-first-message"} {
+				mode := strings.Split(variant, "/")[0]
 				if pos == -1 && mode == "fail" {
+					continue
+				}
+				if variant != mode && scen != "uplink" {
 					continue
 				}
 				if pos >= 0 && pos >= positions {
@@ -63,19 +67,24 @@ func ctlFaults(c *ctx, file func() string) error {
 				old := crand.Reader
 				crand.Reader = rd
 				var d *simDev
-				var frame, next []byte
+				var frame, next, m1, m2 []byte
+				nextConfirmed, m1Ack := true, true
 				an := []byte{1, 2, 3}
 				if scen == "uplink" {
 					d = h.abpDevice(false)
 					if err := h.addDevice(d, 5, 9); err != nil {
 						return err
 					}
-					h.submit(d, 42, r.Bytes(11), true)
+					m1, m2 = append([]byte{0x71}, r.Bytes(10)...), append([]byte{0x72}, r.Bytes(4)...)
+					m1Ack = variant == mode
+					h.submit(d, 42, m1, m1Ack)
+					h.submit(d, 43, m2, pos%4 == 0)
 					frame, err = h.uplinkFrame(d, 5, true, false, []byte{0xaa, byte(pos + 1), 1})
 					if err != nil {
 						return err
 					}
-					next, err = h.uplinkFrame(d, 6, true, false, []byte{0xbb, byte(pos + 1), 2})
+					nextConfirmed = pos%2 == 0
+					next, err = h.uplinkFrame(d, 6, nextConfirmed, false, []byte{0xbb, byte(pos + 1), 2})
 					if err != nil {
 						return err
 					}
@@ -180,6 +189,7 @@ func ctlFaults(c *ctx, file func() string) error {
 						h.fail("propfail", "recorded-twice-after-"+mode, fmt.Sprintf("C10: after a %s at %s the uplink payload %v of a strict device is recorded twice", mode, opAt, dups), full, "")
 					}
 					seen := map[int]string{}
+					last, acks, sentM1 := -1, 0, false
 					for _, em := range allEmitted {
 						ds, err := h.decodeDowns(d, em)
 						if err != nil {
@@ -190,6 +200,37 @@ func ctlFaults(c *ctx, file func() string) error {
 								h.fail("propfail", "downlink-fcnt-reused-after-"+mode, fmt.Sprintf("C10: after a %s at %s the downlink counter %d is used for two different frames", mode, opAt, x.fcnt), x.raw, prev)
 							}
 							seen[x.fcnt] = x.raw
+							// the counter of every frame comes from the store (it stood at 9) and grows
+							if (c.prop == "C07" || c.prop == "C10") && !h.failed && (x.fcnt < 9 || x.fcnt <= last) {
+								h.fail("propfail", "downlink-fcnt-not-from-store", fmt.Sprintf("%s: after a %s at %s a downlink carries counter %d although the stored counter stood at 9 and the previous frame carried %d", c.prop, mode, opAt, x.fcnt, last), x.raw, "a counter handed out by the store, above the previous one")
+							}
+							last = x.fcnt
+							if x.ack {
+								acks++
+							}
+							// oldest first: nothing of the second message before the first one has been transmitted
+							if x.plain == hx.H(m1) {
+								sentM1 = true
+							}
+							// (an unconfirmed first message that was marked sent and then lost with a crash or a late
+							// failure is not re-queued: the order is judged when the first message requests
+							// acknowledgement, or when the failure hit the handler before it picks a message)
+							early := mode == "fail" && (opAt == "AdvanceFCntUp" || opAt == "CreateUpstreamMessage" || opAt == "GetApplicationByEUI" || opAt == "GetDeviceByDevAddr")
+							if c.prop == "C06" && !h.failed && x.plain == hx.H(m2) && !sentM1 && (m1Ack || early) {
+								h.fail("propfail", "queue-order-after-"+mode, fmt.Sprintf("C06: after a %s at %s the second queued message is transmitted although the first (older) one never was", mode, opAt), x.raw, "the message queued first")
+							}
+						}
+					}
+					// acknowledgements never outnumber the confirmed uplinks that were accepted (recorded)
+					if c.prop == "C09" && !h.failed {
+						owed := 0
+						for _, row := range inboxData(full, d.eui) {
+							if strings.HasPrefix(row, "aa") || (nextConfirmed && strings.HasPrefix(row, "bb")) {
+								owed++
+							}
+						}
+						if acks > owed {
+							h.fail("propfail", "ack-not-owed-after-"+mode, fmt.Sprintf("C09: after a %s at %s %d downlinks carry the ACK flag but only %d confirmed uplinks were accepted and recorded", mode, opAt, acks, owed), fmt.Sprint(acks), fmt.Sprint(owed))
 						}
 					}
 				}
